@@ -106,3 +106,8 @@ class PairVerifyAccessory:
             return ref_encode([(T_STATE, b"\x04"), (T_ERROR, b"\x02")]), None
         nxt = bytes([(st[0] + 1) & 0xFF]) if st else b"\x02"
         return ref_encode([(T_STATE, nxt), (T_ERROR, b"\x02")]), None
+
+
+def event_key(secret: bytes) -> bytes:
+    """HAP over CoAP/Thread: the accessory -> controller event key."""
+    return hkdf(secret, b"Event-Salt", b"Event-Read-Encryption-Key")
